@@ -47,7 +47,10 @@ def run(ctx, model_ok):
                             "boundary sum of the log r_i terms is not analysed) (proved elsewhere: Dipole, Sphere, segment, Cuboid, "
                             "Triangle, Tetrahedron, Circle, the whole ported BHJM_magnet_cylinder with cel / cel0 as opaque functions, and the TriangularMesh inside test / "
                             "bounding-box pre-filter / is_facet_inwards, tied by the trimesh-inside stream)",
-                            "Cylinder: only the single-row path of `cel` (cel0) is modelled; scipy ellipk/ellipe modelled through cel0 (validated by the kern stream)",
+                            "Cylinder: Model/Cylinder.lean calls the single-row path of `cel` (cel0); the batch path celv and the dispatcher ARE modelled separately (Model/Celv.lean, celbatch rows of this "
+                            "stream, bit-identical) and shown to agree with cel0 entry by entry except for moduli with 0 < |1 - |kc|| <= 1e-6 (Props/C06 celv_eq_cel0_partial, celv_ne_cel0_in_band); "
+                            "cel / cel0 / celv take only dimensionless arguments (ratios of lengths), so the unit theorems, which treat cel as an opaque function of its arguments, are not affected by "
+                            "which path is taken; scipy ellipk/ellipe modelled through cel0 (validated by the kern stream)",
                             "float loss of absolute offsets at extreme scales is outside exact real arithmetic"]
 
 
